@@ -29,10 +29,16 @@ KOf(nd) == LET gr == Alpha.graphs[nd.gi] IN
 
 RespOk(e) == e[3] = 1
 
-\* observations at one state (the slot names the configuration and the CONCRETE id)
-ObsAt(nd) == UNION { ObsOf(nd.g, LAMBDA i : nd.cid[i], Reqs[nd.e[j][2]], RespOk(nd.e[j]), nd.e[j][4])
-                     : j \in DOMAIN nd.e }
-PtSecAt(nd) == UNION { PtOfSecOf(nd.g, LAMBDA i : nd.cid[i], Reqs[nd.e[j][2]], RespOk(nd.e[j]), nd.e[j][4])
+\* observations of one edge / at one state (channel slots name the configuration and the CONCRETE
+\* id; node-level slots are the NAMES NodeKey(style, seed, net, which))
+CfgOf(nd) == Alpha.graphs[nd.gi].cfg
+ObsEdge(nd, e) == ObsOf(ToString(nd.g), LAMBDA i : nd.cid[i], Reqs[e[2]], RespOk(e), e[4])
+                  \cup NodeObsOf(CfgOf(nd), Reqs[e[2]], RespOk(e), e[4])
+ObsAt(nd) == UNION { ObsEdge(nd, nd.e[j]) : j \in DOMAIN nd.e }
+\* what the reference terms evaluate to (asked in the initial state of every graph)
+RefObs == UNION { UNION { IF Reqs[Nodes[k].e[j][2]].op = "Ref" THEN ObsEdge(Nodes[k], Nodes[k].e[j]) ELSE {}
+                          : j \in DOMAIN Nodes[k].e } : k \in {k \in DOMAIN Nodes : Nodes[k].root} }
+PtSecAt(nd) == UNION { PtOfSecOf(ToString(nd.g), LAMBDA i : nd.cid[i], Reqs[nd.e[j][2]], RespOk(nd.e[j]), nd.e[j][4])
                        : j \in DOMAIN nd.e }
 AllObs == UNION { ObsAt(Nodes[k]) : k \in DOMAIN Nodes }
 
@@ -43,13 +49,15 @@ BadDistinct == Collide(AllObs)
 BadSlots == {p[1] : p \in BadStable}
 Shows(k, sl) == \E p \in ObsAt(Nodes[k]) : p[1] = sl
 FirstVal == [sl \in BadSlots |->
+               \* for a node-level slot the reference is the specification
+               IF \E p \in RefObs : p[1] = sl THEN (CHOOSE p \in RefObs : p[1] = sl)[2] ELSE
                LET k == CHOOSE k \in DOMAIN Nodes : Shows(k, sl) /\ \A j \in 1..(k - 1) : ~Shows(j, sl)
                IN (CHOOSE p \in ObsAt(Nodes[k]) : p[1] = sl)[2]]
 
 ---------------------------------------------------------------------------
 \* abstraction of a projected state (src: native and LDK derive from the id; ctr is unobservable)
 TreeName(nd, v, n) ==
-  LET js == {j \in 1..Len(nd.cid) : <<<<nd.g, nd.cid[j], "sec", n>>, v>> \in AllObs} IN
+  LET js == {j \in 1..Len(nd.cid) : <<<<ToString(nd.g), nd.cid[j], "sec", n>>, v>> \in AllObs} IN
   IF js = {} THEN "?" ELSE IdName(CHOOSE j \in js : TRUE)
 AbsSlots(nd, sl) == [k \in 1..Len(sl) |-> [t |-> TreeName(nd, sl[k][1], sl[k][2]), n |-> sl[k][2]]]
 ModelState(nd) ==
@@ -71,7 +79,7 @@ SameVisible(a, b) ==
 ValOf(nd, a) ==   \* a = <<"sec"|"pt", "i<j>", n>>
   LET js == {j \in 1..Len(nd.cid) : IdName(j) = a[2]}
       vs == IF js = {} THEN {} ELSE
-            {p[2] : p \in {q \in AllObs : q[1] = <<nd.g, nd.cid[CHOOSE j \in js : TRUE], a[1], a[3]>>}} IN
+            {p[2] : p \in {q \in AllObs : q[1] = <<ToString(nd.g), nd.cid[CHOOSE j \in js : TRUE], a[1], a[3]>>}} IN
   vs
 
 \* 1. conformance of an implementation edge with the specification
@@ -88,13 +96,15 @@ Conforms(nd, e) ==
         => \A v \in ValOf(nd, <<"pt", IdName(r.id), r.n>>) : v = e[4][2])
 
 \* 2. the monitors, per state (so that TLC's counterexample is a shortest history)
-StableAt(nd)   == \A p \in ObsAt(nd) : p \in BadStable => p[2] = FirstVal[p[1]]
+BadObs(p)      == p \in BadStable /\ p[2] # FirstVal[p[1]]
+StableAt(nd)   == \A p \in ObsAt(nd) : ~IsNodeSlot(p[1]) => ~BadObs(p)
+NodeKeysAt(nd) == \A p \in ObsAt(nd) : IsNodeSlot(p[1]) => ~BadObs(p)
 DistinctAt(nd) == \A p \in ObsAt(nd) : p \notin BadDistinct
 TreeBadEdge(nd, e) ==
   LET r == Reqs[e[2]] IN
   /\ r.op \in {"Provide", "Get"}
   /\ LET sl == nd.pre.st[r.to]
-         Own(v, n) == <<<<nd.g, nd.cid[r.to], "sec", n>>, v>> \in AllObs IN
+         Own(v, n) == <<<<ToString(nd.g), nd.cid[r.to], "sec", n>>, v>> \in AllObs IN
      \/ (r.op = "Provide" /\
          TreeRefused(sl, Own, r, RespOk(e), Secret(ModelState(nd), r.from, r.n, "id0").resp.ok))
      \/ TreeWrong(sl, Own, r, e[4])
@@ -116,6 +126,7 @@ View == node
 C18a == Mon = "C18" => StableAt(Nodes[node + 1])
 C18b == Mon = "C18" => DistinctAt(Nodes[node + 1])
 C18c == Mon = "C18" => TreeAt(Nodes[node + 1])
+C18d == Mon = "C18" => NodeKeysAt(Nodes[node + 1])
 
 ---------------------------------------------------------------------------
 \* report (no set of ALL edges is built: per node)
@@ -123,6 +134,9 @@ BadAt(i, Bad(_, _)) == {<<i, j>> : j \in {k \in DOMAIN Nodes[i].e : Bad(Nodes[i]
 EdgesWhere(Bad(_, _)) == UNION {BadAt(i, Bad) : i \in DOMAIN Nodes}
 Divergent == EdgesWhere(LAMBDA nd, e : ~Conforms(nd, e))
 TreeBad   == EdgesWhere(LAMBDA nd, e : TreeBadEdge(nd, e))
+\* the edges whose reply is a clashing / colliding observation (only computed when there is one)
+StableBadEdges   == IF BadStable = {} THEN {} ELSE EdgesWhere(LAMBDA nd, e : \E p \in ObsEdge(nd, e) : BadObs(p))
+DistinctBadEdges == IF BadDistinct = {} THEN {} ELSE EdgesWhere(LAMBDA nd, e : \E p \in ObsEdge(nd, e) : p \in BadDistinct)
 NEdges    == FoldLeft(LAMBDA acc, nd : acc + Len(nd.e), 0, Nodes)
 NObsEdges == FoldLeft(LAMBDA acc, nd : acc + Cardinality({j \in DOMAIN nd.e : RespOk(nd.e[j]) /\ Len(nd.e[j][4]) > 0}), 0, Nodes)
 
@@ -142,7 +156,9 @@ Report ==
     divergences  |-> SetToSeq({Describe(p) : p \in Divergent}),
     unstable     |-> SetToSeq({[DescribeObs(p) EXCEPT !.first = FirstVal[p[1]]] : p \in BadStable}),
     colliding    |-> SetToSeq({DescribeObs(p) : p \in BadDistinct}),
-    tree_bad     |-> SetToSeq({Describe(p) : p \in TreeBad}) ]
+    tree_bad     |-> SetToSeq({Describe(p) : p \in TreeBad}),
+    stable_bad   |-> SetToSeq({Describe(p) : p \in StableBadEdges}),
+    distinct_bad |-> SetToSeq({Describe(p) : p \in DistinctBadEdges}) ]
 
 ASSUME JsonSerialize(IOEnv.KEYS_REPORT, Report)
 =============================================================================
